@@ -57,6 +57,7 @@ INVARIANT C16_AttachmentsOwnedMarked
 INVARIANT C17_CacheFrozen
 INVARIANT C17_HookSeesDelivered
 INVARIANT C07_OneMove
+INVARIANT C07_LatestAsIs
 INVARIANT C07_HookOrder
 INVARIANT C07_Gate
 INVARIANT C07_OldStay
